@@ -88,7 +88,49 @@ def run(ck):
         ck.count('n:%s' % ('2-9' if len(seqs) < 10 else '10-49' if len(seqs) < 50 else '50-99'))
     small = [c for c in cases if len(c['seqs']) <= 9][: (35 if quick else 250)]
     res, dis = nc.correspond(ck, small, 'Pipeline (binary32: distances, UPGMA, merges) vs the implementation on inputs with duplicates')
+    # distances at the word/lane/cap boundaries of the bit-parallel kernel: windows of a longer sequence whose last residue differs
+    dlines = []
+    for k in range(60 if quick else 500):
+        L = rng.choice([70, 130, 300, 300, 402, 402, 600, 1100]) if (not quick or k % 10 == 0) else rng.choice([70, 130, 300, 402])
+        D = gen.rand_seq(rng, rng.choice(['ACGT', 'AC', 'ACG']), L)
+        seqs = [D]
+        for _ in range(rng.range(1, 4)):
+            m = rng.choice([62, 63, 64, 65, 127, 128, 129, 254, 255, 256, 257, 511, 512, 1023, 1024, 1025])
+            if m > L: m = rng.choice([62, 63, 64, 65])
+            a = rng.below(L - m + 1)
+            w = D[a:a + m]
+            if rng.chance(2, 3):
+                w = w[:-1] + rng.choice([c for c in 'ACGT' if c != w[-1]])     # the window's last residue mismatches
+            seqs.append(w)
+        if rng.chance(1, 3): seqs.append(D)
+        dlines.append('dmat ' + ' '.join(gen.hexs(x) for x in seqs))
+    di = ck.run_lines_sharded(kvh, dlines, shards=8, timeout=1800)
+    dm = ck.run_lines_sharded(ck.model(), dlines, shards=14, timeout=1800)
+    ck.evaluations += len(dlines)
+    dst = ck.corr.setdefault('Pipeline.distance_matrix (bpm_block + length term, binary32) vs d_estimation at the 64/256/1024 boundaries', {'cases': 0, 'disagreements': 0})
+    for ln, x, y in zip(dlines, di, dm):
+        dst['cases'] += 1
+        if x != y:
+            dst['disagreements'] += 1
+            dis.append({'case': ln[:1500], 'what': 'distance matrix differs: implementation %s, model %s' % (x[:200], y[:200])})
     big = [c for c in cases if c not in small]
+    # witness family at the same boundaries: a duplicated long low-complexity sequence plus near-windows of boundary length
+    for k in range(8 if quick else 60):
+        L = rng.choice([300, 402, 520])
+        D = gen.rand_seq(rng, rng.choice(['AC', 'ACG', 'ACGT']), L)
+        others = []
+        for _ in range(rng.range(2, 4)):
+            mlen = rng.choice([255, 256, 256, 257, 64, 128])
+            a = rng.below(L - mlen + 1)
+            w = D[a:a + mlen]
+            w = w[:-1] + rng.choice([c for c in 'ACGT' if c != w[-1]])
+            others.append(w)
+        seqs = [D] + others + [D]
+        rng.shuffle(seqs)
+        rd = reduce(tabs['alpha_defDNA'], 'N', D)
+        prem = all(not contained(reduce(tabs['alpha_defDNA'], 'N', x), rd) for x in set(seqs) if x != D)
+        big.append({'kind': 'dna', 'seqs': seqs, 'dup': D, 'type': rng.choice(TYPES['dna']), 'pens': [gen.NG] * 3, 'threads': 1, 'premise': prem})
+        ck.count('boundary-window family, premise %s' % ('holds' if prem else 'fails'))
     impl = ck.run_lines_sharded(kvh, [nc.run_line(c['seqs'], c['type'], c['pens'], c['threads'], flags=29) for c in big], shards=12, timeout=3000)
     ck.evaluations += len(big)
     allres = [(c, p) for c, p, pm in res] + [(c, nc.parse_impl(o)) for c, o in zip(big, impl)]
